@@ -35,14 +35,22 @@ func c16Gen(tier string, seed int64) []fw.Case {
 type stateEv struct {
 	state string
 	err   string
-	seq   int
+	seq   int // callback entered
+	ret   int // callback returned (large if it has not)
 }
 
 func statesOf(ev []memnet.Event, conn int) []stateEv {
 	var out []stateEv
 	for _, e := range ev {
 		if e.Kind == memnet.KState && e.Conn == conn {
-			out = append(out, stateEv{e.S, e.Err, e.Seq})
+			out = append(out, stateEv{e.S, e.Err, e.Seq, 1 << 30})
+		}
+		if e.Kind == memnet.KStateRet && e.Conn == conn {
+			for i := range out {
+				if out[i].seq == e.Ref {
+					out[i].ret = e.Seq
+				}
+			}
 		}
 	}
 	return out
@@ -56,7 +64,7 @@ func statesOf(ev []memnet.Event, conn int) []stateEv {
 func checkConnStates(ev []memnet.Event, conn int, cli *mqtt.BaseClient, disconnectCall, firstCause int, ended bool) (string, string) {
 	st := statesOf(ev, conn)
 	nA, nC, nD := 0, 0, 0
-	seqD := -1
+	seqD, retD := -1, 1<<30
 	var closedErr string
 	acceptSeq := -1
 	for _, e := range ev {
@@ -74,12 +82,20 @@ func checkConnStates(ev []memnet.Event, conn int, cli *mqtt.BaseClient, disconne
 		case "Closed":
 			nC++
 			closedErr = s.err
-			if seqD >= 0 {
-				return "closed-after-disconnected", fmt.Sprintf("connection %d: Closed reported (#%d) after Disconnected (#%d)", conn, s.seq, seqD)
+			if seqD >= 0 && s.seq > retD {
+				// strictly after: the Closed callback began after the Disconnected callback had returned
+				// (callbacks of two goroutines that merely overlap are not ordered)
+				sig := "closed-after-disconnected"
+				if firstCause >= 0 && firstCause < seqD {
+					// the connection-ending cause was injected before Disconnected was reported: the Closed
+					// transition may have happened first and only its callback was overtaken
+					sig = "closed-callback-overtaken-by-disconnect"
+				}
+				return sig, fmt.Sprintf("connection %d: Closed reported (#%d) after the Disconnected callback (#%d) had returned (#%d); first connection-ending cause at #%d", conn, s.seq, seqD, retD, firstCause)
 			}
 		case "Disconnected":
 			nD++
-			seqD = s.seq
+			seqD, retD = s.seq, s.ret
 		}
 	}
 	desc := func() string {
@@ -272,15 +288,19 @@ func c16Base(rng *rand.Rand) (sig, detail string, trace []string, shape string) 
 		// racing causes: the order in which the library saw them is unknown; accept both
 		// outcomes by checking only the order-independent rules
 		st := statesOf(tr.Snapshot(), conn.ID)
-		seenD := false
+		retD, seqD := 1<<30, 1<<30
 		cnt := map[string]int{}
 		for _, s := range st {
 			cnt[s.state]++
 			if s.state == "Disconnected" {
-				seenD = true
+				retD, seqD = s.ret, s.seq
 			}
-			if s.state == "Closed" && seenD {
-				return fail("closed-after-disconnected", fmt.Sprintf("racing %v: Closed reported after Disconnected", chosen))
+			if s.state == "Closed" && s.seq > retD {
+				sig := "closed-after-disconnected"
+				if fc < seqD {
+					sig = "closed-callback-overtaken-by-disconnect"
+				}
+				return fail(sig, fmt.Sprintf("racing %v: Closed callback began (#%d) after the Disconnected callback had returned (#%d); cause injected at #%d, Disconnected reported at #%d", chosen, s.seq, retD, fc, seqD))
 			}
 		}
 		if cnt["Active"] > 1 || cnt["Closed"] > 1 || cnt["Disconnected"] != 1 {
@@ -320,6 +340,22 @@ func c16Reconn(rng *rand.Rand) (sig, detail string, trace []string, shape string
 	}
 	tag++
 	sc.Steps = append(sc.Steps, scen.Step{Op: "pub", QoS: 1, Tag: fmt.Sprintf("m%d", tag), Wait: true})
+	hasSilence, hasNoConnack := false, false
+	for _, st := range sc.Steps {
+		if st.Op == "silentping" {
+			hasSilence = true
+		}
+	}
+	for _, f := range sc.Faults {
+		if f.Kind == scen.NoConnack {
+			hasNoConnack = true
+		}
+	}
+	if !hasSilence && !hasNoConnack {
+		// no scenario step needs a short timeout: use a generous one so that machine load cannot make a
+		// healthy ping time out (which would legitimately close the connection)
+		sc.TimeoutMs = 3000
+	}
 	run := scen.Exec(&sc)
 	defer run.Finish()
 	tr := run.Tr
@@ -355,6 +391,11 @@ func c16Reconn(rng *rand.Rand) (sig, detail string, trace []string, shape string
 	}
 	if curDial < lastSilenceEnd {
 		return "", "", nil, "unsampled-overlaps-silence"
+	}
+	if sc.TimeoutMs < 1000 && ping > 0 {
+		// short ping timeout (needed by a silence / absent-CONNACK step): a loaded machine could make a
+		// healthy ping time out, so the health of the current connection is not asserted in this run
+		return "", "", nil, "unsampled-short-timeout"
 	}
 	if ping > 0 {
 		time.Sleep(time.Duration(3*ping) * time.Millisecond) // stale keep-alive goroutines of earlier connections have ticked by now
